@@ -13,6 +13,10 @@ EDITS = {
    "            if held_id < min_recv_id:\n                self.new_recv()  # held frames are older than what is wanted now\n            else:\n                min_recv_id = held_id  # continue where it left off\n"),
   # equivalent literal
   ("t          = time_ns() // 1_000_000  # ns -> ms", "t          = time_ns() // 1000000  # ns -> ms"),
+  # sender: reordered independent assignments, commuted conjunction, set comprehension instead of set(generator)
+  ("                prev_id   = env['mid']\n                ephemeral = env.get('eph', 0)\n", "                ephemeral = env.get('eph', 0)\n                prev_id   = env['mid']\n"),
+  ("            if prev_id >= msg_id and not ephemeral:  # if requesting", "            if not ephemeral and prev_id >= msg_id:  # if requesting"),
+  ("            client_ids = set(client.client_id for client in clients.values())\n", "            client_ids = {client.client_id for client in clients.values()}\n"),
   # reordered independent statements
   ("        senders     = self.senders\n        sendervs    = senders.values()\n        poller      = self.poller\n", "        poller      = self.poller\n        senders     = self.senders\n        sendervs    = senders.values()\n"),
  ],
